@@ -544,7 +544,7 @@ int main(int argc, char **argv) {
     if (argc < 3) { fprintf(stderr, "usage: %s <direct|table> <scripts> [first]\n", argv[0]); return 2; }
     via_table = !strcmp(argv[1], "table");
     libast_set_program_name("mbuff_replay");
-    DEBUG_LEVEL = 0;
+    DEBUG_LEVEL = getenv("VH_DEBUG_LEVEL") ? (unsigned int) atoi(getenv("VH_DEBUG_LEVEL")) : 0;   /* the level is a dimension of the families */
     signal(SIGPIPE, SIG_IGN);
     return vh_main(argc, argv, 2);
 }
